@@ -54,6 +54,13 @@ S.PATTERNS.update(LONG)
 MODES = ("read", "w-number", "w-ndarray", "w-flodym", "w-flodym-rev")
 
 
+FAMILY = "std"  # label family of the unit being explored ("tricky": labels colliding with letters, names, each other)
+
+
+def _items(pattern):
+    return S.items_for(pattern, family=FAMILY)
+
+
 def bounds(tier):
     return dict(arrays=list(ARRAYS_Q if tier == "quick" else ARRAYS_T), patterns=list(PATTERNS), long_patterns=list(LONG), modes=list(MODES))
 
@@ -96,17 +103,27 @@ def units(tier, seed):
                 level = "full"
             else:
                 level = "q"
-            items = S.items_for(pat)
+            items = _items(pat)
             for first in selectors(items[dims[0]], level, True):
                 out.append(dict(kind="grid", pattern=pat, dims=dims, level=level, first=first))
+    # the same grid over dimensions whose item labels collide with letters, names, each other, "" and integers
+    global FAMILY
+    FAMILY = "tricky"
+    for pat in (("2323",) if tier == "quick" else ("2323", "all3")):
+        for dims in arrays:
+            items = _items(pat)
+            for first in selectors(items[dims[0]], "q", True):
+                out.append(dict(kind="grid", pattern=pat, dims=dims, level="q", first=first, family="tricky"))
+            out.append(dict(kind="where", pattern=pat, dims=dims, family="tricky"))
+    FAMILY = "std"
     if tier == "thorough":
-        for first in selectors(S.items_for("all2")["a"], "q", True):
+        for first in selectors(_items("all2")["a"], "q", True):
             out.append(dict(kind="grid", pattern="all2", dims="abcde", level="q", first=first))
     # one long dimension in each position: all ordered selections of its 5 items
     for pat, lens in LONG.items():
         pos = lens.index(5)
         for dims in (("abc",) if tier == "quick" else ("abc", "abcd")):
-            items = S.items_for(pat)
+            items = _items(pat)
             longsel = list(ordered_selections(items[S.LETTERS[pos]], None if tier == "thorough" else 4))
             for chunk in range(0, len(longsel), 40):
                 out.append(dict(kind="long", pattern=pat, dims=dims, pos=pos, sels=[list(s) for s in longsel[chunk : chunk + 40]]))
@@ -122,7 +139,7 @@ def units(tier, seed):
 
 
 def make_target(pattern, dims, prov="C"):
-    items = S.items_for(pattern)
+    items = _items(pattern)
     f = S.val_base(6, 0)(tuple(dims), items)
     X = S.flodym_array(tuple(dims), items, f, prov)
     m = R.build(tuple(dims), items, f)
@@ -205,10 +222,25 @@ def run_case(pattern, dims, sel, form, mode):
     dims = tuple(dims)
     X, m, items = make_target(pattern, dims)
     kb = build_key(dims, sel, form, X)
-    case = dict(kind="grid", pattern=pattern, dims="".join(dims), sel=sel, form=form, mode=mode)
+    case = dict(kind="grid", pattern=pattern, dims="".join(dims), sel=sel, form=form, mode=mode, family=FAMILY)
     if kb is None:
         return "n/a", None
     key = kb[1]
+    if form in ("tuple", "tuple-rev", "bare"):
+        # items given without naming their dimension: one that occurs in several of the array's dimensions must raise
+        flat = list(key) if isinstance(key, tuple) else [key]
+        amb = [it for it in flat if sum(1 for l in dims if any(it == o and type(it) is type(o) for o in items[l])) != 1]
+        if amb:
+            before = X.values.copy()
+            if mode == "read":
+                st, got = attempt(lambda: X[key])
+            else:
+                st, got = attempt(lambda: X.__setitem__(key, -7.5))
+            if st != "raised":
+                return "fail", dict(case=case, tags=dict(mode=mode, form=form, kind="ambiguous-accepted"), what=f"{mode} with key {key!r} on dims {''.join(dims)!r} (items {[items[l] for l in dims]}): item(s) {amb!r} occur in several dimensions and no dimension is named, yet no error was raised")
+            if not np.array_equal(before, X.values):
+                return "fail", dict(case=case, tags=dict(mode=mode, form=form, kind="ambiguous-changed"), what=f"refused {mode} with ambiguous key {key!r} changed the array")
+            return "ambiguous-item-refused", None
     ms, has_list = model_sel(dims, sel)
     kinds = "".join({"none": "-", "item": "S", "sub": "D", "list": "L"}[s[0]] for s in sel)
 
@@ -298,7 +330,7 @@ def run_case(pattern, dims, sel, form, mode):
 
 
 def grid_combos(pattern, dims, level, first):
-    items = S.items_for(pattern)
+    items = _items(pattern)
     rest = [selectors(items[l], level, True) for l in dims[1:]]
     for tail in itertools.product(*rest):
         yield [first] + [list(t) for t in tail]
@@ -306,7 +338,7 @@ def grid_combos(pattern, dims, level, first):
 
 def run_grid(u, res):
     dims = u["dims"]
-    items = S.items_for(u["pattern"])
+    items = _items(u["pattern"])
     nontriv_arr = any(len(items[l]) >= 2 for l in dims)
     for sel in grid_combos(u["pattern"], dims, u["level"], u["first"]):
         has_list = any(s[0] == "list" for s in sel)
@@ -328,7 +360,7 @@ def run_grid(u, res):
 def run_long(u, res):
     dims = u["dims"]
     pos = u["pos"]
-    items = S.items_for(u["pattern"])
+    items = _items(u["pattern"])
     others = []
     for k, l in enumerate(dims):
         if k == pos:
@@ -513,7 +545,7 @@ def run_where_case(pattern, dims, marked, prov="C"):
     dims = tuple(dims)
     X, m, items = make_target(pattern, dims, prov)
     labs = list(m.labels())
-    case = dict(kind="where", pattern=pattern, dims="".join(dims), marked=marked, prov=prov)
+    case = dict(kind="where", pattern=pattern, dims="".join(dims), marked=marked, prov=prov, family=FAMILY)
     for k in marked:
         X.values[tuple(items[l].index(it) for l, it in zip(dims, labs[k]))] = -99.0
     st, got = attempt(lambda: X.items_where(lambda v: v == -99.0))
@@ -529,7 +561,7 @@ def run_where_case(pattern, dims, marked, prov="C"):
 def run_split_case(pattern, dims, letter):
     dims = tuple(dims)
     X, m, items = make_target(pattern, dims)
-    case = dict(kind="split", pattern=pattern, dims="".join(dims), letter=letter)
+    case = dict(kind="split", pattern=pattern, dims="".join(dims), letter=letter, family=FAMILY)
     st, got = attempt(lambda: X.split(letter))
     if st == "raised":
         return "fail", dict(case=case, tags=dict(mode="split", kind="raised"), what=f"split({letter!r}) raised {got}")
@@ -603,6 +635,8 @@ def run_where(u, res):
 
 
 def run_unit(u):
+    global FAMILY
+    FAMILY = u.get("family", "std")
     res = dict(evals=0, nontrivial=0, outcomes={}, fails=[], samples=[])
     if u["kind"] == "grid":
         run_grid(u, res)
@@ -620,6 +654,8 @@ def run_unit(u):
 
 
 def replay(case):
+    global FAMILY
+    FAMILY = case.get("family", "std")
     k = case["kind"]
     if k == "grid":
         oc, f = run_case(case["pattern"], case["dims"], case["sel"], case["form"], case["mode"])
